@@ -186,7 +186,7 @@ def run(ctx):
     fv, fvc = [], []
     for _ in range(ctx.pick(120, 2500)):
         d, n = int(rng.choice([1, 2, 2, 3])), int(rng.choice([1, 2, 3, 4, 5]))
-        kind = str(rng.choice(['int', 'product', 'lowrank', 'generic', 'weak', 'weak']))
+        kind = str(rng.choice(['int', 'product', 'lowrank', 'generic', 'weak', 'weak', 'degenerate', 'degenerate']))
         fv.append(c13.record_from_vector(ptn, rng, d, n, 0.0, kind))
         fvc.append(dict(kind='from_vector', d=d, n=n, tol=0.0, vkind=kind))
         ctx.count(fvc[-1], nontrivial=n >= 2)
